@@ -57,6 +57,7 @@ type pcAtom struct {
 	x, y   ssa.Value
 	v      ssa.Value
 	xk, yk string
+	ctx    *symCtx // call string the values stand in (for Resolve / Origins)
 }
 
 var (
@@ -844,7 +845,7 @@ func (s *Sym) cond(v ssa.Value, ctx *symCtx, d int) *pcF {
 }
 
 func (s *Sym) opaque(v ssa.Value, ctx *symCtx) *pcF {
-	return &pcF{k: pcAtomK, atom: &pcAtom{key: s.Key(v, ctx), v: v}}
+	return &pcF{k: pcAtomK, atom: &pcAtom{key: s.Key(v, ctx), v: v, ctx: ctx}}
 }
 
 // expandCall: a static in-module callee without loops that returns one bool.
@@ -938,13 +939,31 @@ func (s *Sym) cmp(x *ssa.BinOp, ctx *symCtx, d int) *pcF {
 			return s.intCmp(r, flip[op], c, x, ctx)
 		}
 	}
+	// helper(...) != nil, the helper a loop-free function of the module: the
+	// exits of the helper that return something other than nil there
+	if s.Expand && (op == token.EQL || op == token.NEQ) && ctx.depth() < 3 {
+		var other ssa.Value
+		if isNilConst(r) {
+			other = l
+		} else if isNilConst(l) {
+			other = r
+		}
+		if other != nil {
+			if f := s.nilExpand(other, ctx, d); f != nil {
+				if op == token.EQL {
+					return pcNotF(f)
+				}
+				return f
+			}
+		}
+	}
 	lk, rk := s.Key(l, ctx), s.Key(r, ctx)
 	mk := func(o token.Token, a, b ssa.Value, ak, bk string) *pcF {
 		sym := "=="
 		if o == token.LSS {
 			sym = "<"
 		}
-		return &pcF{k: pcAtomK, atom: &pcAtom{key: ak + " " + sym + " " + bk, op: o, x: a, y: b, xk: ak, yk: bk, v: x}}
+		return &pcF{k: pcAtomK, atom: &pcAtom{key: ak + " " + sym + " " + bk, op: o, x: a, y: b, xk: ak, yk: bk, v: x, ctx: ctx}}
 	}
 	ordered := isIntegerType(l.Type()) || isStringType(l.Type())
 	switch op {
@@ -971,6 +990,89 @@ func (s *Sym) cmp(x *ssa.BinOp, ctx *symCtx, d int) *pcF {
 		}
 	}
 	return s.opaque(x, ctx)
+}
+
+// nilExpand: "v != nil" for v = helper(...)[i]; nil when v is not such a value.
+func (s *Sym) nilExpand(v ssa.Value, ctx *symCtx, d int) *pcF {
+	v = unspill(v)
+	var c *ssa.Call
+	idx := 0
+	switch x := v.(type) {
+	case *ssa.Call:
+		c = x
+	case *ssa.Extract:
+		if cc, ok := x.Tuple.(*ssa.Call); ok {
+			c, idx = cc, x.Index
+		}
+	}
+	if c == nil {
+		return nil
+	}
+	fn := c.Call.StaticCallee()
+	if fn == nil || fn.Blocks == nil || !strings.HasPrefix(pkgPathOf(fn), modPath) || len(ssaLoops(fn)) > 0 || len(fn.Blocks) > 24 || idx >= fn.Signature.Results().Len() {
+		return nil
+	}
+	if _, isIface := fn.Signature.Results().At(idx).Type().Underlying().(*types.Interface); !isIface {
+		return nil
+	}
+	for p := ctx; p != nil; p = p.parent {
+		if p.call != nil && p.call.Common().StaticCallee() == fn {
+			return nil
+		}
+	}
+	for _, b := range fn.Blocks {
+		for _, in := range b.Instrs {
+			switch in.(type) {
+			case *ssa.Go, *ssa.Defer, *ssa.Send, *ssa.Panic:
+				return nil
+			}
+		}
+	}
+	nctx := &symCtx{call: c, parent: ctx}
+	out := pcZ
+	for _, b := range fn.Blocks {
+		ret, ok := b.Instrs[len(b.Instrs)-1].(*ssa.Return)
+		if !ok || b == fn.Recover {
+			continue
+		}
+		rv := unspill(ret.Results[idx])
+		var term *pcF
+		switch {
+		case isNilConst(rv):
+			continue
+		case freshNonNil(rv):
+			term = pcT
+		default:
+			if term = s.nilExpand(rv, nctx, d+1); term == nil {
+				nilC := ssa.NewConst(nil, rv.Type())
+				lk, rk := s.Key(rv, nctx), s.Key(nilC, nctx)
+				var l, r ssa.Value = rv, nilC
+				if lk > rk {
+					l, r, lk, rk = r, l, rk, lk
+				}
+				term = pcNotF(&pcF{k: pcAtomK, atom: &pcAtom{key: lk + " == " + rk, op: token.EQL, x: l, y: r, xk: lk, yk: rk, ctx: nctx}})
+			}
+		}
+		out = pcOrF(out, pcAndF(s.PathCond(fn.Blocks[0], b, nctx), term))
+	}
+	return out
+}
+
+// freshNonNil: an error (or other interface value) just built: fmt.Errorf,
+// errors.New, or a concrete value boxed into the interface.
+func freshNonNil(v ssa.Value) bool {
+	switch x := v.(type) {
+	case *ssa.MakeInterface:
+		return true
+	case *ssa.Call:
+		if f := x.Call.StaticCallee(); f != nil {
+			switch f.String() {
+			case "fmt.Errorf", "errors.New":
+				return true
+			}
+		}
+	}
+	return false
 }
 
 func (s *Sym) intCmp(subj ssa.Value, op token.Token, c int64, at ssa.Value, ctx *symCtx) *pcF {
@@ -1010,7 +1112,7 @@ func (s *Sym) intAtom(subj string, set ISet, nonNeg bool, at ssa.Value, ctx *sym
 	if nonNeg {
 		set = set.intersect(ISet{{0, fullISet[len(fullISet)-1].hi}})
 	}
-	a := &pcAtom{key: subj + "∈" + set.String(), subj: subj, set: set, hasLo: nonNeg, lo: 0, v: at}
+	a := &pcAtom{key: subj + "∈" + set.String(), subj: subj, set: set, hasLo: nonNeg, lo: 0, v: at, ctx: ctx}
 	if len(set) == 0 {
 		return pcZ
 	}
@@ -1961,11 +2063,34 @@ func pcEvalFree(f *pcF, val func(*pcAtom) (bool, bool)) (res bool, ok bool) {
 // such as the nil of an error exit left out), with the helper's parameters
 // followed back to the arguments.
 type originRef struct {
-	v   ssa.Value
-	ctx *symCtx
+	v    ssa.Value
+	ctx  *symCtx
+	cond *pcF // condition, inside the helpers read through, of the exits that return v
+}
+
+// pcSat: some feasible assignment satisfies f (undecided counts as satisfiable).
+func pcSat(f *pcF) bool {
+	as := f.atoms()
+	if len(as) > 16 {
+		return true
+	}
+	for m := 0; m < 1<<len(as); m++ {
+		env := map[string]bool{}
+		for i, a := range as {
+			env[a.key] = m&(1<<i) != 0
+		}
+		if pcFeasible(as, env) && f.eval(env, map[*pcF]bool{}) {
+			return true
+		}
+	}
+	return false
 }
 
 func (s *Sym) Origins(v ssa.Value, ctx *symCtx, depth int) []originRef {
+	return s.originsCond(v, ctx, depth, pcT)
+}
+
+func (s *Sym) originsCond(v ssa.Value, ctx *symCtx, depth int, cond *pcF) []originRef {
 	v = s.Resolve(v, ctx)
 	if _, isParam := v.(*ssa.Parameter); isParam {
 		// resolved into the caller's frame
@@ -1976,7 +2101,7 @@ func (s *Sym) Origins(v ssa.Value, ctx *symCtx, depth int) []originRef {
 		}
 	}
 	if depth > 3 {
-		return []originRef{{v, ctx}}
+		return []originRef{{v, ctx, cond}}
 	}
 	var call *ssa.Call
 	idx := 0
@@ -1989,12 +2114,12 @@ func (s *Sym) Origins(v ssa.Value, ctx *symCtx, depth int) []originRef {
 		}
 	}
 	if call == nil {
-		return []originRef{{v, ctx}}
+		return []originRef{{v, ctx, cond}}
 	}
 	g := call.Call.StaticCallee()
 	if g == nil || g.Blocks == nil || len(ssaLoops(g)) > 0 || !strings.HasPrefix(pkgPathOf(g), modPath) || idx >= g.Signature.Results().Len() ||
 		(s.originStop != nil && s.originStop(g)) {
-		return []originRef{{v, ctx}}
+		return []originRef{{v, ctx, cond}}
 	}
 	nctx := &symCtx{call: call, parent: ctx}
 	var out []originRef
@@ -2007,10 +2132,10 @@ func (s *Sym) Origins(v ssa.Value, ctx *symCtx, depth int) []originRef {
 		if _, isConst := rv.(*ssa.Const); isConst {
 			continue
 		}
-		out = append(out, s.Origins(rv, nctx, depth+1)...)
+		out = append(out, s.originsCond(rv, nctx, depth+1, pcAndF(cond, s.PathCond(g.Blocks[0], b, nctx)))...)
 	}
 	if len(out) == 0 {
-		return []originRef{{v, ctx}}
+		return []originRef{{v, ctx, cond}}
 	}
 	return out
 }
